@@ -63,12 +63,15 @@ META = {
         "render_link_url - path2doc answered None, the lookup (relfn2path/path2doc) raised inside a try whose handler is "
         "entered, a regular-file test was false, or the destination contains a character no path can contain (NUL) - passes "
         "exactly one XREF_MISSING warning (giving up = delegation to render_link_url or a text-only wrap node) and paths "
-        "that create a reference pass none. "
+        "that create a reference pass none; after giving a link up to render_link_url (which renders only the link's own "
+        "child tokens) the handler inspects the children of the node that was appended (self.current_node[-1]) and fills it "
+        "on the empty branch, directly or in a helper. "
         "R4 roles: at every make_refnode / docname_join / Domain.resolve_(any_)xref call the 'from' slot derives from refdoc "
         "(or the current docname) and the 'to'/'target' slot from reftarget or a registry docname, traced through locals, "
         "tuple unpacking and parameters over the call graph; a docname computed by hand (posixpath/os.path join + normpath "
         "instead of sphinx.util.docname_join) must strip or test a leading '/' of the target (root-relative destinations); "
-        "the refdoc a writer stores is the current docname. "
+        "the refdoc a writer stores is the current docname; the target handed to docname_join has its '#fragment' split off "
+        "(KNOWN finding: it has not - `[](../sub/t#heading)`). "
         "R5 writer/reader agreement: every attribute the resolver *subscripts* on a 'myst' pending_xref (not .get, not under "
         "a statement- or expression-level `'k' in node` guard), split by the refdomain == 'doc' context, is set by every "
         "constructor call with the matching refdomain (keyword dict literals expanded); for refdomain='doc' every binding of "
@@ -92,6 +95,8 @@ META = {
         "returns is, on every path, a name for which `name not in registry` was the last decided membership fact - so no "
         "heading's (slug -> section id, title) entry is overwritten. "
         "The resolver reads that registry through the same access path below the environment as the renderer saved it, and "
+        "the env-level copy accumulates (the entries an earlier parse of the same document saved are merged in before the "
+        "store, or the saved table is updated in place), and "
         "the element of the entry that the resolver passes to make_refnode as target id is read from the section node's "
         "assigned ids (node['ids'] / nameids), not recomputed from the heading text (make_id, slug functions); the title "
         "element is stored back from the tree (clean_astext) by code that runs after Sphinx's i18n Locale transform (a "
@@ -100,7 +105,9 @@ META = {
         "R10 rewrite scope: a markdown-it env entry that the Sphinx link handlers read to rewrite destinations "
         "('relative-docs', set by the include mock around its nested render) is put back to its saved value (or popped, "
         "directly or by a restoring helper) on every normal and exceptional path after it was set, so that links after the "
-        "include are not rewritten. "
+        "include are not rewritten; the rewritten destination is made relative (os.path.relpath) to the directory of the "
+        "document being built (env.docname via doc2path), the one relfn2path resolves it against - not to a directory kept "
+        "in the env entry or the source root. "
         "R9 label keys: keys looked up in the std domain's labels / anonlabels are lower-cased on every flow "
         "(flow-sensitive, through parameters, their defaults and all call sites); a label lookup returns None only on paths "
         "that consulted anonlabels, the complete registry (labels holds only the labels that have a title or caption)."
@@ -668,6 +675,11 @@ class Enumerator:
     def _defs_of(self, name: str) -> list[ast.expr]:
         return [v for _, v, pos in assignments_to(self.fi, name) if pos is None]
 
+    def _is_last_appended(self, name: str) -> bool:
+        """The name is bound to `self.current_node[-1]`: the node a delegate just appended."""
+        defs = [v for _, v, pos in assignments_to(self.fi, name) if pos is None]
+        return bool(defs) and all(isinstance(v, ast.Subscript) and (dotted(v.value) or "").endswith("current_node") and isinstance(v.slice, ast.UnaryOp) and isinstance(v.slice.op, ast.USub) and isinstance(v.slice.operand, ast.Constant) and v.slice.operand.value == 1 for v in defs)
+
     def _text_only_node(self, a: ast.expr) -> bool:
         """The expression is a plain docutils node (not a pending_xref / download_reference)."""
         vals = [a]
@@ -823,6 +835,9 @@ class Enumerator:
             s.empty = s.empty - tested
             s.ph = s.ph - tested
         for e, pol in facts(test, outcome):
+            if self.pv is None and isinstance(e, ast.Attribute) and e.attr == "children" and isinstance(e.value, ast.Name) and self._is_last_appended(e.value.id):
+                s = s.copy()
+                s.events = s.events + (("children-nonempty" if pol else "children-empty", test, e.value.id, False),)
             if isinstance(e, ast.Compare) and len(e.ops) == 1 and isinstance(e.left, ast.Call) and isinstance(e.comparators[0], ast.Constant) and e.comparators[0].value is None and isinstance(e.ops[0], (ast.Is, ast.IsNot)) and self.is_attempt(e.left):
                 if pol == isinstance(e.ops[0], ast.Is):
                     s = s.copy()
@@ -1082,6 +1097,15 @@ class Enumerator:
             elif self.pv is not None and isinstance(f, ast.Attribute) and f.attr == "replace" and unparse(f.value) == f"{self.pv}.parent" and len(call.args) == 2:
                 s.events = s.events + (("replace", call, self.tainted(call.args[1], s), "ph" if self.is_placeholder(call.args[1], s) else self.is_hollow(call.args[1], s)),)
             hc = self_callee(self.c, self.fi, call)
+            if hc is not None and not hc.is_lambda and self.pv is None:
+                for a_ in call.args:
+                    if isinstance(a_, ast.Name) and self._is_last_appended(a_.id):
+                        p_ = param_of_arg(hc, call, a_.id)
+                        tests = p_ is not None and any(isinstance(x, ast.Attribute) and x.attr == "children" and isinstance(x.value, ast.Name) and x.value.id == p_ for x in hc.local_nodes())
+                        fills = p_ is not None and any(isinstance(x, ast.Call) and isinstance(x.func, ast.Attribute) and x.func.attr in ("append", "extend", "insert") and isinstance(x.func.value, ast.Name) and x.func.value.id == p_ for x in hc.local_nodes())
+                        if tests and fills:
+                            # an "ensure the reference has some text" helper
+                            s.events = s.events + (("children-empty", call, a_.id, False), ("append-to", call, a_.id, False))
             if hc is not None and not hc.is_lambda:
                 for a_ in call.args:
                     if isinstance(a_, ast.Name) and a_.id in (s.ph | s.hollow):
@@ -1110,6 +1134,8 @@ class Enumerator:
             self._forget(s, n.target.id)
         elif isinstance(n, ast.Expr) and isinstance(n.value, ast.Call):
             c = n.value
+            if self.pv is None and isinstance(c.func, ast.Attribute) and c.func.attr in ("append", "extend", "insert") and isinstance(c.func.value, ast.Name) and c.args:
+                s.events = s.events + (("append-to", c, c.func.value.id, False),)
             if isinstance(c.func, ast.Attribute) and c.func.attr in ("append", "extend", "insert") and isinstance(c.func.value, ast.Name) and c.args:
                 if self.tainted(c.args[-1], s):
                     s.taint = s.taint | {c.func.value.id}
@@ -1499,6 +1525,44 @@ def _emission_unless_ignored(corpus: Corpus, rep: Report) -> None:
         rep.error("C12.R3", "log_warning: fewer than 2 exits (two nitpick returns + the emission on the pinned tree)")
 
 
+def _url_renderer_fills_text(corpus: Corpus) -> bool:
+    """Does render_link_url itself guarantee a non-empty reference (inspects the children of the node it builds)?"""
+    f = corpus.func(f"{BASE_R}.render_link_url")
+    return any(isinstance(x, ast.Attribute) and x.attr == "children" and isinstance(x.value, ast.Name) and x.value.id != "token" for x in f.local_nodes())
+
+
+def _given_up_has_text(corpus: Corpus, rep: Report, fi: FunctionInfo, en: "Enumerator", results) -> None:
+    """After a failed lookup the handler gives the link up to render_link_url, which only renders the link's own
+    child tokens: for a link written without text the handler must inspect the node that was appended
+    (self.current_node[-1]) and fill it when it is empty - otherwise the warning is followed by an invisible link."""
+    paths = [st for _, st in results if st.marks and any(e[0] == "render_link_url" for e in st.events)]
+    if not paths:
+        return
+    k = f"{fi.fq}|renderer|given-up link|never rendered without text"
+    if _url_renderer_fills_text(corpus):
+        rep.ok("C12.R3", k, fi.site(), "render_link_url fills an empty reference itself")
+        return
+    bad = None
+    for st in paths:
+        evs = list(st.events)
+        i_url = max(i for i, e in enumerate(evs) if e[0] == "render_link_url")
+        after = evs[i_url + 1 :]
+        empties = [e for e in after if e[0] == "children-empty"]
+        nonempt = [e for e in after if e[0] == "children-nonempty"]
+        if empties:
+            nm = empties[0][2]
+            if not any(e[0] == "append-to" and e[2] == nm for e in after[after.index(empties[0]) :]):
+                bad = (st, f"tests `{nm}.children` but adds nothing on the empty branch")
+        elif not nonempt:
+            bad = (st, "never inspects the children of the reference that render_link_url appended (self.current_node[-1])")
+    if bad:
+        st, why = bad
+        url = [e for e in st.events if e[0] == "render_link_url"][-1]
+        rep.violation("C12.R3", k, fi.module.site(url[1]), f"after the failed lookup the link is given up to render_link_url, which renders only the link's own child tokens, and the handler {why}: `[](project:nofile)` gets its warning and then an invisible `<a></a>`", describe(en.cfg, st.trail))
+    else:
+        rep.ok("C12.R3", k, fi.site(), f"{len(paths)} giving-up path(s): the appended reference is inspected and filled when empty")
+
+
 @rule("C12.R3")
 def r3_exactly_one_warning(corpus: Corpus, rep: Report, tier: str):
     rep.rule("C12.R3", "failing paths pass exactly one XREF_MISSING warning naming the target, other paths none; the replacement keeps the text subtree")
@@ -1552,6 +1616,7 @@ def r3_exactly_one_warning(corpus: Corpus, rep: Report, tier: str):
             return "resolved"
 
         _judge_paths(rep, "C12.R3", fi, en3, res3, text_rule=False, failing_of=cls_r, label="renderer")
+        _given_up_has_text(corpus, rep, fi, en3, res3)
     rep.expect_min("C12.R3", 12, "outcome classes of run (2), resolve_myst_ref_doc (3), text obligations, 3 named warnings, 3 renderer handlers")
 
 
@@ -2097,6 +2162,30 @@ def r4_from_to_roles(corpus: Corpus, rep: Report, tier: str):
                         site,
                         f"`{unparse(arg)}` in the {slot} slot of {name} derives from {sorted(kinds - {'CONST'})}, expected {sorted(acc)} - {SLOT_WHY[slot]}: links between pages in different directories get the wrong relative URI",
                     )
+    # the docname fallback of the generic resolver is handed the destination as written, '#fragment' included
+    for m in ci.methods.values():
+        for call in [c for c in m.local_nodes() if isinstance(c, ast.Call) and m.module.resolve(dotted(c.func) or "") == "sphinx.util.docname_join"]:
+            tgt = call_arg(call, 1, "docname")
+            if tgt is None:
+                continue
+            k = f"{m.fq}|docname_join|the target has its '#fragment' split off"
+            split = False
+            x = tgt
+            seen_n = 0
+            while x is not None and seen_n < 6:
+                seen_n += 1
+                if any(isinstance(y, ast.Call) and isinstance(y.func, ast.Attribute) and y.func.attr in ("split", "partition", "rsplit", "rpartition") and y.args and isinstance(y.args[0], ast.Constant) and y.args[0].value == "#" for y in ast.walk(x)):
+                    split = True
+                    break
+                if isinstance(x, ast.Name):
+                    dd = assignments_to(m, x.id)
+                    x = dd[0][1] if len(dd) == 1 else None
+                else:
+                    break
+            if split:
+                rep.ok("C12.R4", k, m.module.site(call), unparse(tgt))
+            else:
+                rep.violation("C12.R4", k, m.module.site(call), f"`{unparse(tgt)}` is the destination as written (R5: a non-doc reference keeps the whole destination), so `[](../sub/t#heading)` - a document named without its extension plus a heading anchor - is looked up as the docname 'sub/t#heading' and reported missing, although `[](../sub/t)` and `[](../sub/t.md#heading)` resolve")
     # the refdoc written by the renderer is the current docname
     for fi, call, keys, dom in _writers(corpus):
         v = keys.get("refdoc")
@@ -3192,6 +3281,12 @@ def r8_slug_registry_no_overwrite(corpus: Corpus, rep: Report, tier: str):
                     reg = dotted(n.value)
                     if _env_path(t, fin) is not None:
                         env_writes.append(t)
+    inplace = []
+    for n in fin.local_nodes():
+        # env...setdefault("myst_slugs", {}).update(self._x) / env...["myst_slugs"].update(self._x): accumulates in place
+        if isinstance(n, ast.Call) and isinstance(n.func, ast.Attribute) and n.func.attr == "update" and n.args and (dotted(n.args[0]) or "").startswith("self.") and _env_path(n.func.value, fin) is not None and any((isinstance(x, ast.Constant) and x.value == "myst_slugs") or (isinstance(x, ast.Attribute) and x.attr == "myst_slugs") for x in ast.walk(n.func.value)):
+            reg = reg or dotted(n.args[0])
+            inplace.append(n)
     if not reg:
         raise Unsupported("_render_finalise: no renderer attribute is saved under the name 'myst_slugs'")
     # the resolver reads the registry from the place the renderer saved it to (same access path below the environment)
@@ -3200,8 +3295,40 @@ def r8_slug_registry_no_overwrite(corpus: Corpus, rep: Report, tier: str):
     for nd in res.local_nodes():
         if isinstance(nd, (ast.Assign, ast.AnnAssign)) and nd.value is not None and any((isinstance(x, ast.Constant) and x.value == "myst_slugs") or (isinstance(x, ast.Attribute) and x.attr == "myst_slugs") for x in ast.walk(nd.value)):
             reads.append(nd.value)
-    if env_writes and reads:
-        wp = [_env_path(w, fin) for w in env_writes]
+    cfg_fin = get_cfg(fin)
+    for n in inplace:
+        rep.ok("C12.R8", f"{fin.fq}|env.{'.'.join(_env_path(n.func.value, fin))}.update({reg})|entries saved by earlier parts of the document are kept", fin.module.site(n), "updated in place")
+    for w in env_writes:
+        wpth = _env_path(w, fin)
+        wst = cfg_fin.stmt_of(w)
+        k = f"{fin.fq}|env.{'.'.join(wpth)} = {reg}|entries saved by earlier parts of the document are kept"
+        merged = None
+        for nd in fin.local_nodes():
+            prev = None
+            if isinstance(nd, ast.For):
+                it = nd.iter
+                while isinstance(it, ast.Call) and isinstance(it.func, ast.Attribute) and it.func.attr in ("items", "keys", "copy") or (isinstance(it, ast.Call) and isinstance(it.func, ast.Name) and it.func.id in ("list", "dict", "tuple", "sorted")):
+                    it = it.func.value if isinstance(it.func, ast.Attribute) else (it.args[0] if it.args else it)
+                    if not isinstance(it, (ast.Call, ast.Subscript, ast.Attribute, ast.Name)):
+                        break
+                if _env_path(it, fin) == wpth and any((isinstance(x, ast.Call) and isinstance(x.func, ast.Attribute) and x.func.attr in ("setdefault", "update", "__setitem__") and dotted(x.func.value) == reg) or (isinstance(x, ast.Subscript) and isinstance(x.ctx, ast.Store) and dotted(x.value) == reg) for b_ in nd.body for x in ast.walk(b_)):
+                    prev = nd
+            elif isinstance(nd, ast.Call) and isinstance(nd.func, ast.Attribute) and nd.func.attr == "update" and dotted(nd.func.value) == reg and nd.args and _env_path(nd.args[0], fin) == wpth:
+                prev = nd
+            if prev is not None:
+                pst = cfg_fin.stmt_of(prev)
+                if cfg_fin.dominates(pst, wst) and pst is not wst:
+                    merged = prev
+                elif merged is None:
+                    merged = False if merged is None else merged
+        if isinstance(merged, ast.AST):
+            rep.ok("C12.R8", k, fin.module.site(w), f"merged at {fin.module.site(merged)} before the store")
+        elif merged is False:
+            rep.violation("C12.R8", k, fin.module.site(w), f"the entries already saved under env.{'.'.join(wpth)} are merged into {reg} only after (or not on every path before) the store: at that point the saved table IS {reg}, so the headings of the parts parsed earlier are lost")
+        else:
+            rep.violation("C12.R8", k, fin.module.site(w), f"`{short(parent(w), 60)}` replaces whatever an earlier parse of the same document saved there: a document parsed in parts (rST `.. include:: x.md :parser: myst_parser.sphinx_`) keeps only the headings of its last Markdown part, and `[](doc.rst#heading-of-an-earlier-part)` warns 'local id not found'")
+    if (env_writes or inplace) and reads:
+        wp = [_env_path(w, fin) for w in env_writes] + [_env_path(n.func.value, fin) for n in inplace]
         for r in reads:
             rp = _env_path(r, res)
             k = f"{res.fq}|slug registry|read from where the renderer saved it"
@@ -3488,6 +3615,41 @@ def r9_label_keys_lowercased(corpus: Corpus, rep: Report, tier: str):
 # R10 destination-rewriting settings are scoped to the nested render that set them
 
 
+def _start_kind(dk: "DocKinds", fi: FunctionInfo, e: ast.expr, depth: int = 0) -> set[str]:
+    """FROM: the (directory of the) document being built; MDENV: a directory remembered in the markdown-it env
+    entry; ROOT: the source root; ?: unknown."""
+    if depth > 6:
+        return {"?"}
+    if isinstance(e, ast.Call):
+        nm = (dotted(e.func) or "").split(".")[-1]
+        if nm in ("dirname", "abspath", "normpath", "realpath", "str", "Path", "fspath") and e.args:
+            return _start_kind(dk, fi, e.args[0], depth + 1)
+        if nm == "doc2path" and e.args:
+            return _start_kind(dk, fi, e.args[0], depth + 1)
+        if nm == "get" and (dotted(e.func.value) or "").endswith("md_env"):
+            return {"MDENV"}
+        return {"?"}
+    if isinstance(e, ast.Attribute):
+        if e.attr in ("parent", "parents"):
+            return _start_kind(dk, fi, e.value, depth + 1)
+        d = dotted(e) or ""
+        if d.endswith("env.docname"):
+            return {"FROM"}
+        if d.endswith("srcdir") or d.endswith("confdir"):
+            return {"ROOT"}
+        return {"?"}
+    if isinstance(e, ast.Subscript):
+        return _start_kind(dk, fi, e.value, depth + 1)
+    if isinstance(e, ast.Starred):
+        return _start_kind(dk, fi, e.value, depth + 1)
+    if isinstance(e, ast.Name):
+        out: set[str] = set()
+        for _, v, pos in assignments_to(fi, e.id):
+            out |= _start_kind(dk, fi, v, depth + 1)
+        return out or {"?"}
+    return {"?"}
+
+
 @rule("C12.R10")
 def r10_rewrite_scope(corpus: Corpus, rep: Report, tier: str):
     rep.rule("C12.R10", "a markdown-it env entry that rewrites link destinations (read by the Sphinx link handlers) is restored to its saved value on every path after it was set")
@@ -3584,7 +3746,30 @@ def r10_rewrite_scope(corpus: Corpus, rep: Report, tier: str):
             else:
                 how = "returns" if leak == EXIT else "raises"
                 rep.violation("C12.R10", key, site, f"after `{short(st, 50)}` a path {how} without putting the saved value of md_env[{k!r}] back (no unconditional restore / pop): the setting outlives the nested render, and `{keys[k].split('(')[-1].rstrip(')')}` rewrites the destinations of links in the rest of the including document")
-    rep.expect_min("C12.R10", 1, "MockIncludeDirective.run sets relative-docs around the nested render")
+    # the rewritten destination is later resolved by relfn2path relative to env.docname: it has to be made relative to
+    # the directory of THAT document, not to a directory remembered in the md_env entry
+    dk = DocKinds(corpus)
+    for m in corpus.cls(SPHINX_R).methods.values():
+        reads_key = any(isinstance(c, ast.Call) and isinstance(c.func, ast.Attribute) and c.func.attr == "get" and (dotted(c.func.value) or "").endswith("md_env") and c.args and isinstance(c.args[0], ast.Constant) and c.args[0].value in keys for c in m.local_nodes())
+        if not reads_key:
+            continue
+        for c in [x for x in m.local_nodes() if isinstance(x, ast.Call) and (dotted(x.func) or "").split(".")[-1] == "relpath"]:
+            n += 1
+            rep.saw_function(m.fq)
+            start = call_arg(c, 1, "start")
+            k = f"{m.fq}|os.path.relpath(rewritten destination, start)|start is the directory of the document being built"
+            site = m.module.site(c)
+            if start is None:
+                rep.violation("C12.R10", k, site, "the rewritten destination is made relative to the process's working directory")
+                continue
+            kinds = _start_kind(dk, m, start)
+            if kinds == {"FROM"}:
+                rep.ok("C12.R10", k, site, unparse(start))
+            elif "?" in kinds or not kinds:
+                rep.error("C12.R10", f"{m.qualname}: cannot trace the start directory `{unparse(start)}` of relpath ({sorted(kinds)})")
+            else:
+                rep.violation("C12.R10", k, site, f"`{unparse(start)}` derives from {sorted(kinds)}: the destination is made relative to a directory other than that of env.docname (the file holding the include directive / the source root), but relfn2path resolves it relative to the document being built - links of a file included from an included file (or from a document in a sub-directory) are reported missing")
+    rep.expect_min("C12.R10", 2, "MockIncludeDirective.run sets relative-docs around the nested render; _handle_relative_docs makes the destination relative")
 
 
 RULES = [r10_rewrite_scope, r1_classification_totality, r2_resolver_totality, r3_exactly_one_warning, r4_from_to_roles, r5_writer_reader_agreement, r6_prefix_removal_exact, r7_local_table_explicit_only, r8_slug_registry_no_overwrite, r9_label_keys_lowercased]
@@ -3615,8 +3800,18 @@ def mutants(corpus: Corpus):
     # --- R1 ---
     f = sx.func("SphinxRenderer.render_link_project")
     iff = find_node(f, lambda n: isinstance(n, ast.If) and unparse(n.test) == "not docname")
-    ret = iff.body[-1] if iff is not None and isinstance(iff.body[-1], ast.Return) else None
-    add("c12-project-missing-doc-link-dropped", "C12.R1", sx, ret, "return None", expect="render_link_project")
+    # the statement of the failing branch that hands the link to render_link_url (a `return self.render_link_url(..)`
+    # or a plain call followed by a fill-in of the text)
+    ret = next((x for x in (iff.body if iff is not None else []) if isinstance(x, (ast.Return, ast.Expr)) and isinstance(x.value, ast.Call) and self_call_name(x.value) == "render_link_url"), None)
+    if ret is not None and isinstance(ret, ast.Expr):
+        # drop the delegation and everything that depends on the node it appended
+        rest = [x for x in iff.body if x.lineno > ret.lineno and not isinstance(x, ast.Return)]
+        src2 = sx.src
+        for x in sorted(rest, key=lambda n: -n.lineno):
+            src2 = splice(src2, x, "pass")
+        out.append(Mutant("c12-project-missing-doc-link-dropped", "C12.R1", sx.rel, splice(src2, ret, "pass"), expect="render_link_project"))
+    else:
+        add("c12-project-missing-doc-link-dropped", "C12.R1", sx, ret, "return None", expect="render_link_project")
     f = sx.func("SphinxRenderer._process_wrap_node")
     st = _stmt_of(f, lambda n: isinstance(n, ast.Expr) and unparse(n.value).startswith("self.render_children("))
     add("c12-explicit-text-not-rendered", "C12.R1", sx, st, "pass", expect="explicit text rendered")
@@ -3912,4 +4107,36 @@ def mutants(corpus: Corpus):
         add("c12-target-id-not-read-from-entry", "C12.R8", rf, unp, f"{names[1]}, {names[2]} = {unparse(unp.value.slice)}, {unparse(unp.value)}[2]", expect="recorded in the entry")
     else:
         out.append(("c12-target-id-not-read-from-entry", "slug tuple unpacking not found"))
+    # --- reverts and partial weakenings of the round-14 repairs ---
+    # f5a71c5: the env-level slug registry keeps the headings of the parts parsed earlier
+    f = bs.func("DocutilsRenderer._render_finalise")
+    lp = find_node(f, lambda n: isinstance(n, ast.For) and "myst_slugs" in unparse(n.iter) and any(isinstance(x, ast.Call) and isinstance(x.func, ast.Attribute) and x.func.attr in ("setdefault", "update") for x in ast.walk(n)))
+    stw = find_node(f, lambda n: isinstance(n, ast.Assign) and isinstance(n.targets[0], ast.Subscript) and isinstance(n.targets[0].slice, ast.Constant) and n.targets[0].slice.value == "myst_slugs")
+    add("c12-slug-registry-overwrites-earlier-parts", "C12.R8", bs, lp, "pass", expect="earlier parts")
+    if lp is not None and stw is not None:
+        lseg, sseg = ast.get_source_segment(bs.src, lp), ast.get_source_segment(bs.src, stw)
+        moved = splice(splice(bs.src, stw, sseg + "\n" + indent_of(f, stw) + lseg) if stw.lineno > lp.lineno else bs.src, lp, "pass") if stw.lineno > lp.lineno else None
+        if moved is not None:
+            out.append(Mutant("c12-slug-registry-merged-after-store", "C12.R8", bs.rel, moved, expect="earlier parts"))
+        it_call = lp.iter
+        inner = it_call.func.value if isinstance(it_call, ast.Call) and isinstance(it_call.func, ast.Attribute) else it_call
+        add("c12-slug-registry-merged-from-document", "C12.R8", bs, inner, 'getattr(self.document, "myst_slugs", {})', expect="earlier parts")
+    # 17a3723: a given-up project: link is never rendered without text
+    f = sx.func("SphinxRenderer.render_link_project")
+    fill = find_node(f, lambda n: isinstance(n, ast.If) and any(isinstance(x, ast.Attribute) and x.attr == "children" for x in ast.walk(n.test)))
+    add("c12-given-up-project-link-without-text", "C12.R3", sx, fill, "pass", expect="never rendered without text")
+    if fill is not None:
+        t = fill.test
+        add("c12-given-up-link-filled-when-not-empty", "C12.R3", sx, t, unparse(t.operand) if isinstance(t, ast.UnaryOp) else f"not ({unparse(t)})", expect="never rendered without text")
+        last = find_node(f, lambda n: isinstance(n, ast.Subscript) and (dotted(n.value) or "").endswith("current_node") and isinstance(n.slice, ast.UnaryOp))
+        add("c12-given-up-link-inspects-the-container", "C12.R3", sx, last, unparse(last.value) if last is not None else "", expect="never rendered without text")
+    # caf413b: the rewritten destination is relative to the directory of the document being built
+    f = sx.func("SphinxRenderer._handle_relative_docs")
+    rp = find_node(f, lambda n: isinstance(n, ast.Call) and (dotted(n.func) or "").split(".")[-1] == "relpath" and len(n.args) >= 2)
+    env_name = next((st_.targets[0].id for st_ in f.local_nodes() if isinstance(st_, ast.Assign) and isinstance(st_.targets[0], ast.Name) and isinstance(st_.value, ast.Call) and "md_env" in unparse(st_.value)), None)
+    if rp is not None and env_name:
+        add("c12-relative-docs-relative-to-includer", "C12.R10", sx, rp.args[1], f"{env_name}[1]", expect="document being built")
+        add("c12-relative-docs-relative-to-source-root", "C12.R10", sx, rp.args[1], "str(self.sphinx_env.srcdir)", expect="document being built")
+    else:
+        out.append(("c12-relative-docs-relative-to-includer", "relpath call not found"))
     return out
